@@ -128,9 +128,15 @@ def scenarios(rng: random.Random, tier: str):
     def n():
         h[0] += 1
         return h[0]
+    # one application registered (in one call) for peers of different realms, another with an extra realm
+    CFGX = ("NODE host=node.local;realm=realm.local;idle=9999;"
+            "peer:peer1.x,realm.local,0,0,30,1,0,-,-,-,-;peer:peer2.x,realm2.local,0,0,30,1,0,-,-,-,-;"
+            "peer:peer3.x,realm3.local,0,0,30,1,1,-,-,-,-;peer:peer4.x,realm.local,0,0,30,1,0,-,-,-,-;"
+            "app:4,1,0,b,0,0+1+2,-;app:4,1,0,b,0,3+1,nowhere.local;app:3,0,1,b,0,-,-")
     for rep in range(150 if tier == "quick" else 3000):
         up = [i for i in range(4) if rng.random() < 0.7]
-        pre = CFG + " | start"
+        cfg_ = CFG if rep % 3 else CFGX
+        pre = cfg_ + " | start"
         conn_of = {}
         for k, i in enumerate(up):
             pre += f" | acc | rx {k} " + nodegen.cer(NAMES[i], "4+3", n(), n(), extra=",acct=3")
@@ -139,7 +145,7 @@ def scenarios(rng: random.Random, tier: str):
         sent = []
         for _ in range(rng.randrange(1, 5)):
             ai = rng.choice([0, 0, 1, 2])
-            realm = rng.choice(["realm.local", "realm.local", "realm2.local", "nowhere.local"])
+            realm = rng.choice(["realm.local", "realm.local", "realm2.local", "nowhere.local", "realm3.local"])
             e2e = rng.choice([0, 0, n()])
             msg = nodegen.ccr(0, e2e, "node.local", realm)
             wait = []
@@ -177,6 +183,10 @@ def scenarios(rng: random.Random, tier: str):
         else:              # same hop-by-hop value on another connection, different end-to-end id, while blocked
             line = pre + f" | req 0 {nodegen.ccr(0, 0, 'node.local')} 2 rx_1_{nodegen.cca(hb0, 4711, 'peer3.x')}"
         out.append(line)
+    # the connection's hop-by-hop generator at and just below its maximum: three requests across the wrap
+    for start in (4294967295, 4294967294, 4294967293):
+        pre = CFG + " | start | acc | rx 0 " + nodegen.cer("peer2.x", "4", n(), n()) + f" | sethbh 0 {start}"
+        out.append(pre + " | " + " | ".join(f"req 0 {nodegen.ccr(0, 0, 'node.local')} 1" for _ in range(3)))
     # two outstanding requests of one application on two connections whose generators coincide (nested send while blocked)
     cfg2 = ("NODE host=node.local;realm=realm.local;idle=9999;peer:peer2.x,realm.local,0,0,30,1,0,-,-,-,-;"
             "peer:peer3.x,realm2.local,0,0,30,1,0,-,-,-,-;app:4,1,0,b,0,0+1,-")
